@@ -18,6 +18,9 @@ type propDef struct {
 
 var props = map[string]*propDef{}
 
+// properties whose cases are also answered by the executable Lean model of the code
+var modelProps = map[string]bool{"C05": true, "C13": true}
+
 func init() {
 	props["C01"] = &propDef{gen: genC01, rule: "random valid batches (tiny 0-14 docs under fixed chunk sizes 1-5/1024/1025, block 129-400, chunk 1025-2600), full read-API script vs Lean Spec.build; non-trivial = batch has a repeated field name in a document, a composite location, or a multi-chunk term; distinct by case-body hash"}
 	props["C02"] = &propDef{gen: genC02, rule: "random merge plans (1-4 leaves with differing field sets / chunk modes, optional inner merge, drops nil/empty/partial/all) vs Lean Spec.merge, plus real-vs-real comparison with the survivors rebuilt; non-trivial = >1 input segment and >0 survivors"}
@@ -117,8 +120,34 @@ func (e *Engine) runSpecDiff(cases []*Case, reuse bool) []Violation {
 	}
 	var vs []Violation
 	shrunk := 0
+	// correspondence of the executable MODEL with the implementation (DESIGN.md 2.5 item 2)
+	var model map[string][]string
+	if modelProps[e.prop] {
+		model, err = e.runModel("model", cases)
+		if err != nil {
+			return []Violation{{Prop: e.prop, Kind: "framework", Detail: err.Error()}}
+		}
+	}
 	for i, c := range cases {
 		e.rep.Queries += len(outs[i].Lines)
+		if model != nil {
+			if d := firstDiff(outs[i].Lines, model[c.ID]); d >= 0 && firstDiff(outs[i].Lines, spec[c.ID]) < 0 {
+				var x, y string
+				if d < len(outs[i].Lines) {
+					x = outs[i].Lines[d]
+				}
+				if d < len(model[c.ID]) {
+					y = model[c.ID][d]
+				}
+				msg := fmt.Sprintf("the Lean MODEL of the code disagrees with the implementation (which agrees with the specification): query %d `%s`\n  impl:  %s\n  model: %s", d, queryAt(c, d), x, y)
+				e.rep.ModelDisagree = append(e.rep.ModelDisagree, msg)
+				if len(e.rep.ModelDisagree) <= 2 {
+					vs = append(vs, Violation{Prop: e.prop, CaseID: c.ID, Kind: "obligation", Case: c, Detail: msg})
+				}
+			} else {
+				e.rep.ModelAgree += len(outs[i].Lines)
+			}
+		}
 		if outs[i].Reuse != nil {
 			e.count("reused:postingslist", outs[i].Reuse.reusedPL)
 			e.count("reused:iterator", outs[i].Reuse.reusedPI)
